@@ -222,7 +222,7 @@ B('C-setindex-flag-flip', ['C09', 'C20'], 'frame.py', 'Frame.set_index',
 B('C-setindex-data-flip', ['C09', 'C20'], 'frame.py', 'Frame.set_index',
   'blocks = self._blocks\n            columns = self._columns\n            own_data = False', 'blocks = self._blocks\n            columns = self._columns\n            own_data = True',
   'C.own-handoff', 'Frame.set_index')
-B('C-extract-own-null-slice', ['C09', 'C04'], 'frame.py', 'Frame._extract',
+B('C-extract-own-null-slice', ['C09'], 'frame.py', 'Frame._extract',
   'own_columns = self._COLUMNS_CONSTRUCTOR.STATIC', 'own_columns = True', 'C.own-handoff', 'Frame._extract')
 B('C-togo-own-columns', ['C09'], 'frame.py', 'FrameGO._to_frame',
   'own_columns=False, # all cases need new columns', 'own_columns=True,', 'C.', 'FrameGO._to_frame')
@@ -343,5 +343,38 @@ B('X-contains-stale-array', ['C02'], 'index.py', 'Index.__contains__',
 B('X-tree-test-dropped', ['C02', 'C05'], 'index_hierarchy.py', 'IndexHierarchy._from_type_blocks',
   "                    if v != observed_last[d]:\n                        raise ErrorInitIndex(f'invalid tree-form for IndexHierarchy: {v} cannot follow {observed_last[d]} when {v} has already been defined.')\n                current = current[v]\n                observed_last[d] = v\n            elif d < depth_max:",
   "                    pass\n                current = current[v]\n                observed_last[d] = v\n            elif d < depth_max:", 'I.tree-form', None)
+
+# ---------------------------------------------------------------------------------- select (C04)
+B('SEL-series-label-other-key', ['C04'], 'series.py', 'Series._extract_loc',
+  'index=self._index.iloc[iloc_key],', 'index=self._index.iloc[key],', 'E.pair[select]', 'Series._extract_loc')
+B('SEL-frame-columns-row-key', ['C04'], 'frame.py', 'Frame._extract',
+  'columns = self._columns._extract_iloc(column_key)', 'columns = self._columns._extract_iloc(row_key)', 'E.pair[select]', 'Frame._extract')
+B('SEL-frame-reduce-crossed', ['C04'], 'frame.py', 'Frame._extract',
+  "                return Series(\n                        column_1d_filter(blocks._blocks[0]),\n                        index=index,\n                        name=name_column)",
+  "                return Series(\n                        column_1d_filter(blocks._blocks[0]),\n                        index=index,\n                        name=name_row)", 'E.pair[select]', 'Frame._extract')
+B('SEL-stop-not-inclusive', ['C04'], 'index.py', 'LocMap.map_slice_args',
+  "                if field == SLICE_STOP_ATTR:\n                    # loc selections are inclusive, so iloc gets one more\n                    pos += 1 #type: ignore", "                pass", 'I.inclusive-stop', 'map_slice_args')
+B('SEL-datetime-stop-not-inclusive', ['C04'], 'index.py', 'LocMap.map_slice_args',
+  'pos = matches[-1] + 1', 'pos = matches[-1]', 'I.inclusive-stop', 'map_slice_args')
+B('SEL-inclusive-helper', ['C04'], 'util.py', 'slice_to_inclusive_slice',
+  'stop = None if key.stop is None else key.stop + 1 + offset', 'stop = None if key.stop is None else key.stop + offset', 'I.inclusive-stop', 'slice_to_inclusive_slice')
+B('SEL-auto-index-slice-raw', ['C04'], 'index.py', 'Index._loc_to_iloc',
+  '            elif key.__class__ is slice:\n                key = slice_to_inclusive_slice(key) #type: ignore', '            elif key.__class__ is slice:\n                pass', 'I.inclusive-stop', 'Index._loc_to_iloc')
+B('SEL-get-for-element', ['C04'], 'index.py', 'LocMap.loc_to_iloc',
+  '        return label_to_pos[key]', '        return label_to_pos.get(key, 0)', 'I.absent-label', 'LocMap.loc_to_iloc')
+B('SEL-slice-none-passes', ['C04'], 'index.py', 'LocMap.map_slice_args',
+  "                    if pos is None:\n                        # NOTE: could raise LocEmpty() to silently handle this\n                        raise LocInvalid('Invalid loc given in a slice', attr, field)", "                    pass", 'I.absent-label', 'map_slice_args')
+B('SEL-partial-leaks', ['C04'], 'series.py', 'Series._extract_loc',
+  'iloc_key = self._index._loc_to_iloc(key)', 'iloc_key = self._index._loc_to_iloc(key, partial_selection=True)', 'I.absent-label', 'Series._extract_loc')
+B('SEL-compound-axes-crossed', ['C04'], 'frame.py', 'Frame._compound_loc_to_iloc',
+  'iloc_column_key = self._columns._loc_to_iloc(loc_column_key)', 'iloc_column_key = self._index._loc_to_iloc(loc_column_key)', 'I.loc-delegates', '_compound_loc_to_iloc')
+B('SEL-bloc-offset-dropped', ['C04', 'C08'], 'type_blocks.py', 'TypeBlocks.extract_bloc',
+  'coords.append((row_pos, t_start + col_pos))', 'coords.append((row_pos, col_pos))', 'H.bloc-coordinate', 'extract_bloc')
+B('SEL-bloc-offset-not-advanced', ['C04', 'C08'], 'type_blocks.py', 'TypeBlocks.extract_bloc',
+  "            if not target.any():\n                t_start = t_end\n                continue", "            if not target.any():\n                continue", 'H.bloc-coordinate', 'extract_bloc')
+N('SEL-alias-key', ['C04'], 'series.py', 'Series._extract_iloc',
+  'def _extract_iloc(self, key: GetItemKeyType) -> \'Series\':', 'def _extract_iloc(self, key: GetItemKeyType) -> \'Series\':\n        k = key')
+N('SEL-bloc-rename-vars', ['C04', 'C08'], 'type_blocks.py', 'TypeBlocks.extract_bloc',
+  'for row_pos, col_pos in zip(*np.nonzero(target)):\n                    coords.append((row_pos, t_start + col_pos))', 'for r, c in zip(*np.nonzero(target)):\n                    coords.append((r, t_start + c))')
 
 VARIANTS = V
